@@ -355,10 +355,26 @@ pub fn place(c: usize, t: T, e: Expr) -> Option<Program> {
             vec![def("x", Expr::Blob("P".into(), vec![("x".into(), e.clone()), ("y".into(), e.clone())])), Stmt::Assign { target: field(var("x"), "y"), op: None, value: e.clone() }, Stmt::Assign { target: field(var("x"), "x"), op: Some(BinOp::Add), value: e }, print_of(showable(T::Blob, var("x")))]
         }
         19 => {
-            if t != T::Int {
-                return None;
+            // a variant carrying a value of the type under test: built, compared, taken apart by a case binding
+            tops.push(Top::Enum { name: "W".into(), variants: vec![("Some".into(), Some(t.ty())), ("Non".into(), None)] });
+            let some = |x: Expr| Expr::Variant("W".into(), "Some".into(), Some(Box::new(x)));
+            let mut arm = vec![pr(t, var("q"))];
+            if t == T::Bool {
+                arm.push(Stmt::Expr(if_e(var("q"), vec![print_of(int(1))], Some(vec![print_of(int(2))]))));
+                arm.push(print_of(bin(BinOp::Eq, var("q"), Expr::Bool(false))));
             }
-            vec![print_of(Expr::Variant("E".into(), "A".into(), Some(Box::new(e.clone())))), print_of(bin(BinOp::Eq, Expr::Variant("E".into(), "A".into(), Some(Box::new(e))), var("v")))]
+            let mut b = vec![
+                def("w", some(e.clone())),
+                Stmt::Expr(Expr::Case(Box::new(var("w")), vec![CaseArm { variant: "Some".into(), bind: Some("q".into()), body: arm.clone() }], Some(vec![print_of(int(0))]))),
+                Stmt::Expr(Expr::Case(Box::new(Expr::Variant("W".into(), "Non".into(), None)), vec![CaseArm { variant: "Some".into(), bind: Some("q".into()), body: arm }], Some(vec![print_of(int(7))]))),
+                print_of(bin(BinOp::Eq, var("w"), some(t.default()))),
+                print_of(bin(BinOp::Ne, var("w"), Expr::Variant("W".into(), "Non".into(), None))),
+            ];
+            if t == T::Int {
+                b.push(print_of(Expr::Variant("E".into(), "A".into(), Some(Box::new(e.clone())))));
+                b.push(print_of(bin(BinOp::Eq, Expr::Variant("E".into(), "A".into(), Some(Box::new(e))), var("v"))));
+            }
+            b
         }
         20 => vec![
             def("i", int(0)),
